@@ -12,8 +12,26 @@ CLAIMS = {}
 NOT_APPLICABLE = {}
 
 
+# clauses added in later rounds (rules shared from another property, new structural clauses); appended to the claim text
+ADDED = {
+    "C01": " The source side is decided too: the fs worker's registration rules (configuration changes not lost, shadow set reset with the watcher, unwatch before watch, every configured path registered by the round's diff) are evaluated here (R01.10, owned by C13).",
+    "C02": " An urgent event is collected whatever the filter says about it, so that it can flush (R02.8, iteration classes owned by C01).",
+    "C03": " Lines added after construction go into the builder stored in the directory's trie node and the matcher is recompiled from it (R03.7); the ignore file of a directory an ancestor ignores is never loaded (R03.10, pruning gates owned by C14).",
+    "C05": " The process-group / session wrappers are applied as configured (R05.9) and an expired grace timer is cleared when it fires, so a restart goes on to its Start (R05.10).",
+    "C06": " The whole-instance graceful quit stops every job through the same graceful stop with the given signal and grace, followed by a normal-priority delete (R06.10, owned by C08).",
+    "C07": " A to_wait() ticket is resolved at once or queued for a process end that will come (R07.8); a control taken from its queue is returned without a further suspension point, so it cannot be lost when the job task's select! drops recv (R07.9).",
+    "C08": " No restart timer stays armed after its restart was carried out (R08.8) and Urgent is the greatest Priority, so the interrupt overtakes any backlog (R08.9).",
+    "C10": " recv is cancellation-safe (R10.7) and a handler raises the control's own flag, never the job-gone flag (R10.6).",
+    "C11": " The whitelist passes an event as soon as any of its paths is explicitly watched (R11.1) and a whitelist match of a nearer ignore file ends the search (R11.5).",
+    "C12": " Explicit patterns are consulted for every path (R12.8), explicit files load in listed order and a failure of dirs::ignores() is propagated (R12.9), and no filtering flag is declared to override another (R12.3).",
+    "C14": " find_file follows symlinks (R14.1), the walker is created after every origin-level probe (R14.3), and the pruning verdict consults every ancestor (R14.6).",
+    "C16": " An incomplete tag object decodes to Tag::Unknown or to a tag whose encoding keeps every present part; every field the writer may omit is optional for the reader; the events file starts empty for every batch.",
+    "C20": " DirList::obtain keeps every entry of the directory (no take / skip on the stream).",
+}
+
+
 def claim(pid, cat, technique, text, note, ref):
-    CLAIMS[pid] = (cat, technique, text, note, ref)
+    CLAIMS[pid] = (cat, technique, text + ADDED.get(pid, ""), note, ref)
 
 
 def na(pid, reason):
